@@ -200,3 +200,49 @@ def gen_entry(rng):
     if rng.random() < 0.5:
         return directory, file, "a", args
     return directory, file, "c", [join_args(args, rng.choice(STYLES), rng) if rng.random() < 0.9 else gen_command(rng)]
+
+
+# ------------------------------------------------------------------ end-to-end (X2) material
+PROBE_MACROS = [b"X", b"Y", b"NDEBUG", b"_F", b"A1", b"b", b"R", b"T", b"__PIC__", b"__pic__", b"UNICODE"]
+PROBE_DIRS = [b"inc", b"inc2", b"sub/dir", b"../up"]
+
+
+def probe_source(i):
+    s = "int vmark_%d ;\n" % i
+    for m in PROBE_MACROS:
+        n = m.decode()
+        s += "#ifdef %s\nint probe_%s = %s ;\n#endif\n" % (n, n, n)
+    s += "#ifdef FN\nint probe_FN = FN(7) ;\n#endif\n"
+    s += "#ifdef __STDC_VERSION__\nint probe_STDCV = __STDC_VERSION__ ;\n#endif\n"
+    for k in range(len(PROBE_DIRS)):
+        s += "#include \"vprobe_%d.h\"\n" % k
+    return s
+
+
+def gen_e2e_args(rng, src, wild=0.05):
+    """Argument vector for an entry whose source file exists; printable ASCII only."""
+    args = [rng.choice(COMPILERS[:2])]
+    for _ in range(rng.randint(0, 7)):
+        k = rng.random()
+        if k < 0.34:
+            m = rng.choice(MACROS) + rng.choice(VALUES) if rng.random() > wild else rng.choice([b"S=\"a b\"", b"Q=$x", b"R=a;b", b"T=a\\b", b"W=a b", b"T=a$b"])
+            args += [b"-D" + m] if rng.random() < 0.7 else [b"-D", m]
+        elif k < 0.48:
+            m = rng.choice(MACROS[:4])
+            args += [b"-U" + m] if rng.random() < 0.7 else [b"-U", m]
+        elif k < 0.68:
+            d = rng.choice(PROBE_DIRS + [b"inc/", b"./inc", b"nonexistent", b"sub/../inc2"])
+            args += [b"-I" + d] if rng.random() < 0.6 else [b"-I", d]
+        elif k < 0.73:
+            args += [b"-isystem", rng.choice(PROBE_DIRS)]
+        elif k < 0.80:
+            args.append(b"-std=" + rng.choice([b"c99", b"c11", b"gnu11", b"gnu99", b"c17"]))
+        elif k < 0.92:
+            args.append(rng.choice([b"-O2", b"-Wall", b"-g", b"-fno-common", b"-m64", b"-pipe", b"-pthread", b"-w", b"-fPIC", b"-fpic"]
+                                   if rng.random() > wild else [b"-fPIC", b"-municode"]))
+        else:
+            args += rng.choice([[b"-o", b"out.o"], [b"-MF", b"dep.d"], [b"-MT", b"tgt"], [b"-MD"]])
+    if rng.random() < wild:
+        args += [b"-o", rng.choice([b"/Data/o.o", b"-Dx.o", b"/Users/u.o"])]
+    args += [b"-c", src]
+    return args
